@@ -9,6 +9,23 @@ import Mathlib.Tactic.FieldSimp
 import Mathlib.Tactic.Positivity
 import Mathlib.Data.List.Sort
 
+/-! # C12: output contract and equivariances of the isotonic fits
+
+General theorems about `gpava`, `pavaMean`, `quantileFit` and their lift to `isoReg`.
+
+1. `internal_between`, `gpava_range`: range of functionals with the Cauchy mean value property.
+2. `bounds_*`, `BlockVec`, `blockVec_bounds`, `gpava_contract`, `runBounds_*`, `blockVec_runBounds`,
+   `BlockVec.mirror`, `BlockVec.unique`: the block index vector.
+3. `gpava_sorted_fixed`, `gpava_idempotent`, `gpava_idempotent_bounds`,
+   `quantileFit_sorted_fixed`, `quantileFit_idempotent`.
+4. `gpava_map` (transport along a strictly increasing map of the values), the functionals under
+   positive affine maps / weight rescaling, `fit_affine_mean`, `fit_affine_expectile`,
+   `fit_affine_quantile`, `fit_weight_scale_mean`, `fit_weight_scale_expectile`.
+5. `eq_isoReg` (normal form of `isoReg`: decision table `eqValidate`, fit `eqFit` on the oriented
+   data, orientation of the output), `eqValidate_ok`, and the properties for `isoReg`:
+   `isoReg_length`, `isoReg_range`, `isoReg_blockVec`, `isoReg_monotone_fixed`,
+   `isoReg_idempotent`, `isoReg_reverse`, `isoReg_affine`, `isoReg_weight_scale`. -/
+
 set_option linter.unusedSectionVars false
 
 namespace MD
@@ -455,6 +472,34 @@ theorem BlockVec.unique {x : List K} {r r' : List Nat} (h : BlockVec x r) (h' : 
       have := (hs'.change (b - 1) hlt).mpr this
       rwa [hb1] at this
   exact h.strict.eq_of_mem_iff h'.strict (fun b => ⟨key h h' b, key h' h b⟩)
+
+/-- the sequence is constant inside a block: no boundary in `(i, j]` means equal values -/
+theorem BlockVec.const {x : List K} {r : List Nat} (h : BlockVec x r) (i j : Nat) (hij : i ≤ j)
+    (hj : j < x.length) (hno : ∀ b ∈ r, b ≤ i ∨ j < b) : x[i]? = x[j]? := by
+  induction j with
+  | zero =>
+    have : i = 0 := by omega
+    rw [this]
+  | succ j ih =>
+    by_cases he : i = j + 1
+    · rw [he]
+    · have h1 : x[i]? = x[j]? := ih (by omega) (by omega) (fun b hb => by
+        rcases hno b hb with h' | h'
+        · exact Or.inl h'
+        · exact Or.inr (by omega))
+      have h2 : ¬ (j + 1 ∈ r) := by
+        intro hb
+        rcases hno (j + 1) hb with h' | h' <;> omega
+      have h3 : x[j]? = x[j + 1]? := by
+        by_contra hcon
+        exact h2 ((h.change j hj).mpr hcon)
+      rw [h1, h3]
+
+/-- adjacent blocks carry different values: the sequence changes across every interior boundary -/
+theorem BlockVec.differ {x : List K} {r : List Nat} (h : BlockVec x r) (b : Nat) (hb : b ∈ r)
+    (h0 : 0 < b) (hn : b < x.length) : x[b - 1]? ≠ x[b]? := by
+  have := (h.change (b - 1) (by omega)).mp (by rw [show b - 1 + 1 = b by omega]; exact hb)
+  rwa [show b - 1 + 1 = b by omega] at this
 
 end Mirror
 
@@ -1114,4 +1159,549 @@ theorem quantileFit_idempotent (α : K) (hα0 : 0 < α) (hα1 : α < 1) (ys : Li
 
 end Fits
 
+/-! ## 5. Normal form of `isoReg` -/
+
+section IsoReg
+variable {K : Type} [Field K] [LinearOrder K] [IsStrictOrderedRing K]
+
+/-- effective functional and level: `median` is the quantile at level `half` -/
+def eqEff (f : Functional) (α : K) : Functional × K :=
+  if f = .median then (Functional.quantile, (half : K)) else (f, α)
+
+/-- the validation part of `isoReg`, as a decision table: effective functional, effective level,
+effective weights -/
+def eqValidate (fn : Option Functional) (α : K) (y : List K) (w : Option (List K)) :
+    Except Err (Functional × K × List K) :=
+  match fn with
+  | none => .error .valueError
+  | some f =>
+    if (f = .expectile ∨ f = .quantile) ∧ (α ≤ 0 ∨ 1 ≤ α) then .error .valueError
+    else
+      match w with
+      | none =>
+        if y = [] then .error .other
+        else .ok ((eqEff f α).1, (eqEff f α).2, y.map (fun _ => (1 : K)))
+      | some wl =>
+        if f = .quantile ∨ f = .median then .error .notImplemented
+        else if wl.length ≠ y.length then .error .valueError
+        else if wl.any (fun v => v ≤ 0) then .error .valueError
+        else if y = [] then .error .other
+        else .ok (f, α, wl)
+
+/-- the fitting part of `isoReg` on oriented observations -/
+def eqFit (f : Functional) (α : K) (obs : List (Obs K)) : List K × List Nat :=
+  match f with
+  | .mean => (expand (pavaMean obs), bounds (pavaMean obs))
+  | .expectile => (expand (gpava (expectile α) obs), bounds (gpava (expectile α) obs))
+  | _ => quantileFit α obs
+
+/-- what `isoReg` returns for validated input -/
+def eqOut (inc : Bool) (y : List K) (v : Functional × K × List K) : List K × List Nat :=
+  (orient inc (eqFit v.1 v.2.1 (orient inc (y.zip v.2.2))).1,
+   mirrorR inc (eqFit v.1 v.2.1 (orient inc (y.zip v.2.2))).2)
+
+open Lean.Parser.Tactic in
+local macro "eq_red" "[" hs:simpLemma,* "]" : tactic =>
+  `(tactic| simp only [isoReg, eqValidate, eqEff, pure_bind, reduceCtorEq, true_or, or_true,
+      true_and, false_and, and_false, and_true, or_self, or_false, false_or, ↓reduceIte, $hs,*])
+
+set_option linter.unusedSimpArgs false in
+/-- normal form of `isoReg`: validation, then fit on the oriented data, then orientation of the
+output -/
+theorem eq_isoReg (fn : Option Functional) (α : K) (inc : Bool) (y : List K) (w : Option (List K)) :
+    isoReg fn α inc y w = (eqValidate fn α y w).map (eqOut inc y) := by
+  cases fn with
+  | none => rfl
+  | some f =>
+    cases w with
+    | none =>
+      by_cases hα : (α ≤ 0 ∨ 1 ≤ α) <;> by_cases c4 : y = []
+      · cases f <;> eq_red [hα, if_pos c4] <;> rfl
+      · cases f <;> cases inc <;> eq_red [hα, if_neg c4] <;> rfl
+      · cases f <;> eq_red [hα, if_pos c4] <;> rfl
+      · cases f <;> cases inc <;> eq_red [hα, if_neg c4] <;> rfl
+    | some wl =>
+      by_cases hα : (α ≤ 0 ∨ 1 ≤ α) <;> by_cases c2 : wl.length ≠ y.length
+      · cases f <;> eq_red [hα, if_pos c2] <;> rfl
+      · by_cases c3 : (wl.any fun v => decide (v ≤ 0)) = true
+        · cases f <;> eq_red [hα, if_neg c2, if_pos c3] <;> rfl
+        by_cases c4 : y = []
+        · cases f <;> eq_red [hα, if_neg c2, if_neg c3, if_pos c4] <;> rfl
+        · cases f <;> cases inc <;> eq_red [hα, if_neg c2, if_neg c3, if_neg c4] <;> rfl
+      · cases f <;> eq_red [hα, if_pos c2] <;> rfl
+      · by_cases c3 : (wl.any fun v => decide (v ≤ 0)) = true
+        · cases f <;> eq_red [hα, if_neg c2, if_pos c3] <;> rfl
+        by_cases c4 : y = []
+        · cases f <;> eq_red [hα, if_neg c2, if_neg c3, if_pos c4] <;> rfl
+        · cases f <;> cases inc <;> eq_red [hα, if_neg c2, if_neg c3, if_neg c4] <;> rfl
+
+/-- admissible effective functional and level -/
+structure FitOK (f : Functional) (α : K) : Prop where
+  notMedian : f ≠ .median
+  lvl : f = .expectile ∨ f = .quantile → 0 < α ∧ α < 1
+
+theorem fitOK_eff (f : Functional) (α : K)
+    (h : ¬ ((f = .expectile ∨ f = .quantile) ∧ (α ≤ 0 ∨ 1 ≤ α))) :
+    FitOK (eqEff f α).1 (eqEff f α).2 := by
+  have hα : (f = .expectile ∨ f = .quantile) → 0 < α ∧ α < 1 := by
+    intro hf
+    constructor
+    · by_contra h0; exact h ⟨hf, Or.inl (not_lt.mp h0)⟩
+    · by_contra h1; exact h ⟨hf, Or.inr (not_lt.mp h1)⟩
+  cases f
+  · exact ⟨by simp [eqEff], by simp [eqEff]⟩
+  · exact ⟨by simp [eqEff], fun _ => by simpa [eqEff] using ⟨half_pos', half_lt_one⟩⟩
+  · exact ⟨by simp [eqEff], fun _ => by simpa [eqEff] using hα (Or.inl rfl)⟩
+  · exact ⟨by simp [eqEff], fun _ => by simpa [eqEff] using hα (Or.inr rfl)⟩
+
+/-- what a successful validation guarantees -/
+theorem eqValidate_ok {fn : Option Functional} {α : K} {y : List K} {w : Option (List K)}
+    {v : Functional × K × List K} (h : eqValidate fn α y w = .ok v) :
+    y ≠ [] ∧ v.2.2.length = y.length ∧ (∀ u ∈ v.2.2, 0 < u) ∧ FitOK v.1 v.2.1 ∧
+      (w ≠ none → v.1 = .mean ∨ v.1 = .expectile) := by
+  cases fn with
+  | none => simp [eqValidate] at h
+  | some f =>
+    cases w with
+    | none =>
+      simp only [eqValidate] at h
+      split_ifs at h with h1 h2
+      cases h
+      refine ⟨h2, by simp, ?_, fitOK_eff f α h1, fun h => absurd rfl h⟩
+      intro u hu
+      obtain ⟨_, _, rfl⟩ := List.mem_map.mp hu
+      exact one_pos
+    | some wl =>
+      simp only [eqValidate] at h
+      split_ifs at h with h1 h2 h3 h4 h5
+      cases h
+      have hf := fitOK_eff f α h1
+      have hne : f ≠ .median := fun h => h2 (Or.inr h)
+      have he : eqEff f α = (f, α) := by simp [eqEff, hne]
+      rw [he] at hf
+      refine ⟨h5, by simpa using h3, ?_, hf, fun _ => ?_⟩
+      · intro u hu
+        by_contra hcon
+        exact h4 (List.any_eq_true.mpr ⟨u, hu, by simpa using not_lt.mp hcon⟩)
+      · cases f
+        · exact Or.inl rfl
+        · exact absurd rfl hne
+        · exact Or.inr rfl
+        · exact absurd (Or.inl rfl) h2
+
+theorem eqValidate_congr_length (fn : Option Functional) (α : K) {y y' : List K}
+    (w : Option (List K)) (h : y.length = y'.length) :
+    eqValidate fn α y w = eqValidate fn α y' w := by
+  have e1 : y.map (fun _ => (1 : K)) = y'.map (fun _ => (1 : K)) := by
+    rw [List.map_const', List.map_const', h]
+  have e2 : (y = []) ↔ (y' = []) := by
+    rw [← List.length_eq_zero_iff, ← List.length_eq_zero_iff, h]
+  cases fn with
+  | none => rfl
+  | some f => cases w <;> simp only [eqValidate, e1, e2, h]
+
+theorem eqValidate_reverse (fn : Option Functional) (α : K) (y : List K) (w : Option (List K)) :
+    eqValidate fn α y.reverse (w.map List.reverse)
+      = (eqValidate fn α y w).map (fun v => (v.1, v.2.1, v.2.2.reverse)) := by
+  cases fn with
+  | none => rfl
+  | some f =>
+    cases w with
+    | none =>
+      simp only [eqValidate, Option.map_none, List.reverse_eq_nil_iff]
+      split_ifs <;> simp [Except.map]
+    | some wl =>
+      simp only [eqValidate, Option.map_some, List.reverse_eq_nil_iff, List.length_reverse,
+        List.any_reverse]
+      split_ifs <;> simp [Except.map]
+
+theorem eqValidate_scale (fn : Option Functional) (α : K) (y : List K) (wl : List K) (c : K)
+    (hc : 0 < c) :
+    eqValidate fn α y (some (wl.map (c * ·)))
+      = (eqValidate fn α y (some wl)).map (fun v => (v.1, v.2.1, v.2.2.map (c * ·))) := by
+  have e : (wl.map (c * ·)).any (fun v => decide (v ≤ 0)) = wl.any (fun v => decide (v ≤ 0)) := by
+    rw [List.any_map]
+    congr 1
+    funext v
+    simp only [Function.comp, decide_eq_decide]
+    constructor
+    · intro h; by_contra h'; rw [not_le] at h'; exact absurd (mul_pos hc h') (not_lt.mpr h)
+    · intro h; exact mul_nonpos_of_nonneg_of_nonpos hc.le h
+  cases fn with
+  | none => rfl
+  | some f =>
+    simp only [eqValidate, List.length_map, e]
+    split_ifs <;> simp [Except.map]
+
+/-! ### the fitting part under the guarantees of the validation -/
+
+theorem eqFit_mean (α : K) (obs : List (Obs K)) (hpos : ∀ o ∈ obs, 0 < o.2) :
+    eqFit .mean α obs = (expand (gpava wmean obs), bounds (gpava wmean obs)) := by
+  simp only [eqFit]
+  rw [pavaMean_eq_gpava obs hpos]
+
+theorem eqFit_length {f : Functional} {α : K} (hf : FitOK f α) (obs : List (Obs K))
+    (hpos : ∀ o ∈ obs, 0 < o.2) : (eqFit f α obs).1.length = obs.length := by
+  cases f
+  · rw [eqFit_mean _ _ hpos]; exact expand_length wmean_internal obs hpos
+  · exact absurd rfl hf.notMedian
+  · obtain ⟨h0, h1⟩ := hf.lvl (Or.inl rfl)
+    exact expand_length (expectileFun α h0 h1).internal obs hpos
+  · obtain ⟨h0, h1⟩ := hf.lvl (Or.inr rfl)
+    exact quantileFit_length α h0 h1 obs
+
+theorem eqFit_range {f : Functional} {α : K} (hf : FitOK f α) (obs : List (Obs K))
+    (hpos : ∀ o ∈ obs, 0 < o.2) :
+    ∀ v ∈ (eqFit f α obs).1, (∃ o ∈ obs, o.1 ≤ v) ∧ (∃ o ∈ obs, v ≤ o.1) := by
+  cases f
+  · rw [eqFit_mean _ _ hpos]; exact gpava_range wmean_internal obs hpos
+  · exact absurd rfl hf.notMedian
+  · obtain ⟨h0, h1⟩ := hf.lvl (Or.inl rfl)
+    exact gpava_range (expectileFun α h0 h1).internal obs hpos
+  · obtain ⟨h0, h1⟩ := hf.lvl (Or.inr rfl)
+    exact C02_range α h0 h1 obs
+
+theorem eqFit_blockVec {f : Functional} {α : K} (hf : FitOK f α) (obs : List (Obs K))
+    (hne : obs ≠ []) (hpos : ∀ o ∈ obs, 0 < o.2) :
+    BlockVec (eqFit f α obs).1 (eqFit f α obs).2 := by
+  cases f
+  · rw [eqFit_mean _ _ hpos]; exact (gpava_contract wmean_internal obs hpos).2.1
+  · exact absurd rfl hf.notMedian
+  · obtain ⟨h0, h1⟩ := hf.lvl (Or.inl rfl)
+    exact (gpava_contract (expectileFun α h0 h1).internal obs hpos).2.1
+  · obtain ⟨h0, h1⟩ := hf.lvl (Or.inr rfl)
+    refine blockVec_runBounds (quantileFit α obs).1 ?_
+    apply List.ne_nil_of_length_pos
+    rw [quantileFit_length α h0 h1]
+    exact List.length_pos_iff.mpr hne
+
+theorem eqFit_sorted_fixed {f : Functional} {α : K} (hf : FitOK f α) (obs : List (Obs K))
+    (hpos : ∀ o ∈ obs, 0 < o.2) (hs : (obs.map (·.1)).Pairwise (· ≤ ·)) :
+    (eqFit f α obs).1 = obs.map (·.1) := by
+  cases f
+  · rw [eqFit_mean _ _ hpos]; exact gpava_sorted_fixed wmean_internal obs hpos hs
+  · exact absurd rfl hf.notMedian
+  · obtain ⟨h0, h1⟩ := hf.lvl (Or.inl rfl)
+    exact gpava_sorted_fixed (expectileFun α h0 h1).internal obs hpos hs
+  · obtain ⟨h0, h1⟩ := hf.lvl (Or.inr rfl)
+    exact quantileFit_sorted_fixed α h0 h1 obs hs
+
+theorem eqFit_idempotent {f : Functional} {α : K} (hf : FitOK f α) (obs : List (Obs K))
+    (hpos : ∀ o ∈ obs, 0 < o.2) :
+    eqFit f α (List.zip (eqFit f α obs).1 (obs.map (·.2))) = eqFit f α obs := by
+  have hokw : ∀ o o' : Obs K, o.2 = o'.2 → 0 < o.2 → 0 < o'.2 := fun o o' h ho => h ▸ ho
+  cases f
+  · have hpos' := ok_zip_snd (ok := fun o => 0 < o.2) hokw (eqFit .mean α obs).1 obs hpos
+    rw [eqFit_mean _ _ hpos'] 
+    rw [eqFit_mean _ _ hpos]
+    exact Prod.ext (gpava_idempotent wmean_internal hokw obs hpos)
+      (gpava_idempotent_bounds wmean_internal hokw obs hpos)
+  · exact absurd rfl hf.notMedian
+  · obtain ⟨h0, h1⟩ := hf.lvl (Or.inl rfl)
+    exact Prod.ext (gpava_idempotent (expectileFun α h0 h1).internal hokw obs hpos)
+      (gpava_idempotent_bounds (expectileFun α h0 h1).internal hokw obs hpos)
+  · obtain ⟨h0, h1⟩ := hf.lvl (Or.inr rfl)
+    exact quantileFit_idempotent α h0 h1 obs
+
+theorem eqFit_affine {f : Functional} {α : K} (hf : FitOK f α) (a b : K) (ha : 0 < a)
+    (obs : List (Obs K)) (hpos : ∀ o ∈ obs, 0 < o.2) :
+    eqFit f α (obs.map fun o => (a * o.1 + b, o.2))
+      = ((eqFit f α obs).1.map (fun v => a * v + b), (eqFit f α obs).2) := by
+  have hpos' : ∀ o ∈ obs.map (fun o => ((a * o.1 + b, o.2) : Obs K)), 0 < o.2 := by
+    intro o ho
+    obtain ⟨o', ho', rfl⟩ := List.mem_map.mp ho
+    exact hpos o' ho'
+  cases f
+  · rw [eqFit_mean _ _ hpos', eqFit_mean _ _ hpos]
+    exact Prod.ext (fit_affine_mean a b ha obs hpos).1 (fit_affine_mean a b ha obs hpos).2
+  · exact absurd rfl hf.notMedian
+  · obtain ⟨h0, h1⟩ := hf.lvl (Or.inl rfl)
+    exact Prod.ext (fit_affine_expectile α h0 h1 a b ha obs hpos).1
+      (fit_affine_expectile α h0 h1 a b ha obs hpos).2
+  · obtain ⟨h0, h1⟩ := hf.lvl (Or.inr rfl)
+    exact fit_affine_quantile α h0 h1 a b ha obs
+
+theorem eqFit_weight_scale {f : Functional} {α : K} (hf : FitOK f α)
+    (hme : f = .mean ∨ f = .expectile) (c : K) (hc : 0 < c)
+    (obs : List (Obs K)) (hpos : ∀ o ∈ obs, 0 < o.2) :
+    eqFit f α (obs.map fun o => (o.1, c * o.2)) = eqFit f α obs := by
+  have hpos' : ∀ o ∈ obs.map (fun o => ((o.1, c * o.2) : Obs K)), 0 < o.2 := by
+    intro o ho
+    obtain ⟨o', ho', rfl⟩ := List.mem_map.mp ho
+    exact mul_pos hc (hpos o' ho')
+  rcases hme with rfl | rfl
+  · rw [eqFit_mean _ _ hpos', eqFit_mean _ _ hpos]
+    exact Prod.ext (fit_weight_scale_mean c hc obs hpos).1 (fit_weight_scale_mean c hc obs hpos).2
+  · obtain ⟨h0, h1⟩ := hf.lvl (Or.inl rfl)
+    exact Prod.ext (fit_weight_scale_expectile α h0 h1 c hc obs hpos).1
+      (fit_weight_scale_expectile α h0 h1 c hc obs hpos).2
+
+/-! ### oriented observations -/
+
+theorem obs_map_fst (inc : Bool) (y wl : List K) (hlen : wl.length = y.length) :
+    (orient inc (y.zip wl)).map (·.1) = orient inc y := by
+  rw [← orient_map, List.map_fst_zip (by omega)]
+
+theorem obs_map_snd (inc : Bool) (y wl : List K) (hlen : wl.length = y.length) :
+    (orient inc (y.zip wl)).map (·.2) = orient inc wl := by
+  rw [← orient_map, List.map_snd_zip (by omega)]
+
+theorem obs_length (inc : Bool) (y wl : List K) (hlen : wl.length = y.length) :
+    (orient inc (y.zip wl)).length = y.length := by
+  rw [orient_length, zip_length_of_eq hlen]
+
+theorem obs_ne (inc : Bool) {y wl : List K} (hlen : wl.length = y.length) (hne : y ≠ []) :
+    orient inc (y.zip wl) ≠ [] := by
+  apply List.ne_nil_of_length_pos
+  rw [obs_length inc y wl hlen]
+  exact List.length_pos_iff.mpr hne
+
+theorem blockVec_orient (inc : Bool) {X : List K} {R : List Nat} (h : BlockVec X R) :
+    BlockVec (orient inc X) (mirrorR inc R) := by
+  cases inc
+  · have hm := h.mirror
+    simp only [orient_false, mirrorR, Bool.false_eq_true, if_false]
+    rw [h.last]
+    exact hm
+  · exact h
+
+/-- inversion: a successful call went through the validation and returns the oriented fit -/
+theorem isoReg_inv {fn : Option Functional} {α : K} {inc : Bool} {y : List K}
+    {w : Option (List K)} {x : List K} {r : List Nat} (h : isoReg fn α inc y w = .ok (x, r)) :
+    ∃ v, eqValidate fn α y w = .ok v ∧ x = (eqOut inc y v).1 ∧ r = (eqOut inc y v).2 := by
+  rw [eq_isoReg] at h
+  cases hv : eqValidate fn α y w with
+  | error e => rw [hv] at h; cases h
+  | ok v =>
+    rw [hv] at h
+    have := Except.ok.inj h
+    exact ⟨v, rfl, by rw [this], by rw [this]⟩
+
+/-! ### the properties, for `isoReg` -/
+
+/-- the result has the input's length -/
+theorem isoReg_length {fn : Option Functional} {α : K} {inc : Bool} {y : List K}
+    {w : Option (List K)} {x : List K} {r : List Nat} (h : isoReg fn α inc y w = .ok (x, r)) :
+    x.length = y.length := by
+  obtain ⟨v, hv, rfl, _⟩ := isoReg_inv h
+  obtain ⟨hne, hlen, hpos, hf, _⟩ := eqValidate_ok hv
+  simp only [eqOut, orient_length]
+  rw [eqFit_length hf _ (orient_zip_snd_pos inc hpos), obs_length inc y _ hlen]
+
+/-- every fitted value lies between two data values -/
+theorem isoReg_range {fn : Option Functional} {α : K} {inc : Bool} {y : List K}
+    {w : Option (List K)} {x : List K} {r : List Nat} (h : isoReg fn α inc y w = .ok (x, r)) :
+    ∀ v ∈ x, (∃ a ∈ y, a ≤ v) ∧ (∃ b ∈ y, v ≤ b) := by
+  obtain ⟨v, hv, rfl, _⟩ := isoReg_inv h
+  obtain ⟨hne, hlen, hpos, hf, _⟩ := eqValidate_ok hv
+  intro u hu
+  simp only [eqOut, mem_orient] at hu
+  obtain ⟨⟨o1, ho1, h1⟩, ⟨o2, ho2, h2⟩⟩ := eqFit_range hf _ (orient_zip_snd_pos inc hpos) u hu
+  exact ⟨⟨o1.1, zip_fst_mem ((mem_orient inc _ o1).mp ho1), h1⟩,
+    ⟨o2.1, zip_fst_mem ((mem_orient inc _ o2).mp ho2), h2⟩⟩
+
+/-- the block index vector is well formed -/
+theorem isoReg_blockVec {fn : Option Functional} {α : K} {inc : Bool} {y : List K}
+    {w : Option (List K)} {x : List K} {r : List Nat} (h : isoReg fn α inc y w = .ok (x, r)) :
+    BlockVec x r := by
+  obtain ⟨v, hv, rfl, rfl⟩ := isoReg_inv h
+  obtain ⟨hne, hlen, hpos, hf, _⟩ := eqValidate_ok hv
+  exact blockVec_orient inc
+    (eqFit_blockVec hf _ (obs_ne inc hlen hne) (orient_zip_snd_pos inc hpos))
+
+/-- input that is already monotone in the requested direction is returned unchanged -/
+theorem isoReg_monotone_fixed {fn : Option Functional} {α : K} {inc : Bool} {y : List K}
+    {w : Option (List K)} {x : List K} {r : List Nat} (h : isoReg fn α inc y w = .ok (x, r))
+    (hm : MonoDir inc y) : x = y := by
+  obtain ⟨v, hv, rfl, _⟩ := isoReg_inv h
+  obtain ⟨hne, hlen, hpos, hf, _⟩ := eqValidate_ok hv
+  simp only [eqOut]
+  rw [eqFit_sorted_fixed hf _ (orient_zip_snd_pos inc hpos)
+    (by rw [obs_map_fst inc y _ hlen]; exact (monoDir_iff_orient inc y).mp hm),
+    obs_map_fst inc y _ hlen, orient_orient]
+
+/-- idempotence: refitting the fitted values (same weights, same direction) returns the same
+result, block vector included -/
+theorem isoReg_idempotent {fn : Option Functional} {α : K} {inc : Bool} {y : List K}
+    {w : Option (List K)} {x : List K} {r : List Nat} (h : isoReg fn α inc y w = .ok (x, r)) :
+    isoReg fn α inc x w = .ok (x, r) := by
+  have hxl := isoReg_length h
+  obtain ⟨v, hv, hx, hr⟩ := isoReg_inv h
+  obtain ⟨hne, hlen, hpos, hf, _⟩ := eqValidate_ok hv
+  rw [eq_isoReg, eqValidate_congr_length fn α w hxl, hv]
+  show Except.ok (eqOut inc x v) = Except.ok (x, r)
+  congr 1
+  have hobs : orient inc (x.zip v.2.2)
+      = List.zip (eqFit v.1 v.2.1 (orient inc (y.zip v.2.2))).1
+          ((orient inc (y.zip v.2.2)).map (·.2)) := by
+    rw [orient_zip inc x _ (by omega), obs_map_snd inc y _ hlen, hx]
+    simp only [eqOut, orient_orient]
+  have : eqOut inc x v = eqOut inc y v := by
+    simp only [eqOut]
+    rw [hobs, eqFit_idempotent hf _ (orient_zip_snd_pos inc hpos)]
+  rw [this, hx, hr]
+
+/-- reversing the data (and the weights) together with the direction reverses the fit and mirrors
+the block vector; holds on every input, error cases included -/
+theorem isoReg_reverse (fn : Option Functional) (α : K) (inc : Bool) (y : List K)
+    (w : Option (List K)) :
+    isoReg fn α (!inc) y.reverse (w.map List.reverse)
+      = (isoReg fn α inc y w).map
+          (fun p => (p.1.reverse, p.2.reverse.map (fun i => y.length - i))) := by
+  rw [eq_isoReg, eq_isoReg, eqValidate_reverse]
+  cases hv : eqValidate fn α y w with
+  | error e => rfl
+  | ok v =>
+    obtain ⟨hne, hlen, hpos, hf, _⟩ := eqValidate_ok hv
+    show Except.ok (eqOut (!inc) y.reverse (v.1, v.2.1, v.2.2.reverse))
+      = Except.ok ((eqOut inc y v).1.reverse, (eqOut inc y v).2.reverse.map (fun i => y.length - i))
+    congr 1
+    have hobs : orient (!inc) (y.reverse.zip v.2.2.reverse) = orient inc (y.zip v.2.2) := by
+      have : y.reverse.zip v.2.2.reverse = (y.zip v.2.2).reverse :=
+        (List.reverse_zipWith (by omega)).symm
+      rw [this]
+      cases inc <;> simp
+    have hbv := eqFit_blockVec hf _ (obs_ne inc hlen hne) (orient_zip_snd_pos inc hpos)
+    have hl := eqFit_length hf (orient inc (y.zip v.2.2)) (orient_zip_snd_pos inc hpos)
+    rw [obs_length inc y _ hlen] at hl
+    simp only [eqOut]
+    rw [hobs]
+    generalize eqFit v.1 v.2.1 (orient inc (y.zip v.2.2)) = p at hbv hl
+    have hlast : p.2.getLast?.getD 0 = y.length := by rw [hbv.last, hl]; rfl
+    cases inc
+    · simp only [Bool.not_false, orient_true, orient_false, List.reverse_reverse, mirrorR,
+        if_true, Bool.false_eq_true, if_false, hlast]
+      rw [mirror_mirror y.length p.2 (fun b hb => hl ▸ hbv.le b hb)]
+    · simp only [Bool.not_true, orient_true, orient_false, mirrorR, if_true, Bool.false_eq_true,
+        if_false, hlast]
+
+/-- positive affine maps of `y` commute with the fit; holds on every input, error cases included -/
+theorem isoReg_affine (fn : Option Functional) (α : K) (inc : Bool) (y : List K)
+    (w : Option (List K)) (a b : K) (ha : 0 < a) :
+    isoReg fn α inc (y.map fun v => a * v + b) w
+      = (isoReg fn α inc y w).map (fun p => (p.1.map (fun v => a * v + b), p.2)) := by
+  rw [eq_isoReg, eq_isoReg, eqValidate_congr_length fn α w (List.length_map _)]
+  cases hv : eqValidate fn α y w with
+  | error e => rfl
+  | ok v =>
+    obtain ⟨hne, hlen, hpos, hf, _⟩ := eqValidate_ok hv
+    show Except.ok (eqOut inc (y.map fun v => a * v + b) v)
+      = Except.ok ((eqOut inc y v).1.map (fun v => a * v + b), (eqOut inc y v).2)
+    congr 1
+    have hobs : orient inc ((y.map fun v => a * v + b).zip v.2.2)
+        = (orient inc (y.zip v.2.2)).map (fun o => (a * o.1 + b, o.2)) := by
+      rw [List.zip_map_left, orient_map]
+      rfl
+    simp only [eqOut]
+    rw [hobs, eqFit_affine hf a b ha _ (orient_zip_snd_pos inc hpos), orient_map]
+
+/-- rescaling all weights by a positive constant does not change the result; holds on every input,
+error cases included -/
+theorem isoReg_weight_scale (fn : Option Functional) (α : K) (inc : Bool) (y : List K)
+    (w : Option (List K)) (c : K) (hc : 0 < c) :
+    isoReg fn α inc y (w.map (List.map (c * ·))) = isoReg fn α inc y w := by
+  cases w with
+  | none => rfl
+  | some wl =>
+    rw [eq_isoReg, eq_isoReg, Option.map_some, eqValidate_scale fn α y wl c hc]
+    cases hv : eqValidate fn α y (some wl) with
+    | error e => rfl
+    | ok v =>
+      obtain ⟨hne, hlen, hpos, hf, hme⟩ := eqValidate_ok hv
+      show Except.ok (eqOut inc y (v.1, v.2.1, v.2.2.map (c * ·))) = Except.ok (eqOut inc y v)
+      congr 1
+      have hobs : orient inc (y.zip (v.2.2.map (c * ·)))
+          = (orient inc (y.zip v.2.2)).map (fun o => (o.1, c * o.2)) := by
+        rw [List.zip_map_right, orient_map]
+        rfl
+      simp only [eqOut]
+      rw [hobs, eqFit_weight_scale hf (hme (by simp)) c hc _ (orient_zip_snd_pos inc hpos)]
+
+end IsoReg
+
+/-! ## Hypotheses are satisfiable -/
+
+/-- `internal_between`, `gpava_range`, `gpava_contract`: an internal functional and a non-empty
+admissible input -/
+example : Internal (fun o : Obs ℚ => 0 < o.2) wmean ∧
+    ([(3, 1), (1, 2), (2, 1)] : List (Obs ℚ)) ≠ [] ∧
+    ∀ o ∈ ([(3, 1), (1, 2), (2, 1)] : List (Obs ℚ)), 0 < o.2 :=
+  ⟨wmean_internal, by simp, by simp⟩
+
+/-- `gpava_sorted_fixed`: non-decreasing input with a tie -/
+example : (([(1, 1), (2, 1), (2, 3), (5, 1)] : List (Obs ℚ)).map (·.1)).Pairwise (· ≤ ·) := by
+  norm_num
+
+/-- `gpava_idempotent`: admissibility that depends on the weight only -/
+example : ∀ o o' : Obs ℚ, o.2 = o'.2 → 0 < o.2 → 0 < o'.2 := fun _ _ h ho => h ▸ ho
+
+/-- `gpava_map`: a strictly increasing map and a compatible map of the observations -/
+example : StrictMono (fun v : ℚ => 2 * v + 3) ∧
+    ∀ o : Obs ℚ, ((fun o : Obs ℚ => ((2 * o.1 + 3, o.2) : Obs ℚ)) o).1 = (fun v : ℚ => 2 * v + 3) o.1 :=
+  ⟨affine_strictMono 2 3 (by norm_num), fun _ => rfl⟩
+
+/-- a block vector: `[0, 2, 3]` for `[1, 1, 2]` -/
+example : BlockVec ([1, 1, 2] : List ℚ) [0, 2, 3] := by
+  have h := blockVec_runBounds ([1, 1, 2] : List ℚ) (by simp)
+  have e : runBounds ([1, 1, 2] : List ℚ) = [0, 2, 3] := by
+    simp [runBounds_eq, go_cons_cons, go_single]
+  rwa [e] at h
+
+/-- the `isoReg`-level statements: a successful call, decreasing direction, explicit weights -/
+example : ∃ x r, isoReg (some .mean) (0 : ℚ) false [3, 1, 2] (some [1, 2, 1]) = .ok (x, r) :=
+  ⟨_, _, isoReg_mean_some _ _ _ _ (by simp) (by simp) (by simp)⟩
+
+/-- a successful unweighted quantile call -/
+example : ∃ x r, isoReg (some .quantile) (1 / 3 : ℚ) true [3, 1, 2] none = .ok (x, r) :=
+  ⟨_, _, isoReg_quantile_none _ (by norm_num) (by norm_num) _ _ (by simp)⟩
+
 end MD
+
+/-
+Sanity checks at `Rat` (`#eval`, not part of the proofs):
+  isoReg (some .mean) (0 : Rat) true [3, 1, 2, 5, 4] (some [1, 2, 1, 1, 3])
+    = .ok ([5/3, 5/3, 2, 17/4, 17/4], [0, 2, 3, 5])
+  isoReg (some .mean) (0 : Rat) false [4, 5, 2, 1, 3] (some [3, 1, 1, 2, 1])
+    = .ok ([17/4, 17/4, 2, 5/3, 5/3], [0, 2, 3, 5])     -- reversed data, weights, direction
+
+`#print axioms` (observed with `lake env lean MD/Proofs/Equivariance.lean`):
+'MD.internal_between' depends on axioms: [propext, Quot.sound]
+'MD.gpava_range' depends on axioms: [propext, Classical.choice, Quot.sound]
+'MD.bounds_diff' depends on axioms: [propext, Quot.sound]
+'MD.blockVec_bounds' depends on axioms: [propext, Classical.choice, Quot.sound]
+'MD.gpava_contract' depends on axioms: [propext, Classical.choice, Quot.sound]
+'MD.runBounds_head' depends on axioms: [propext]
+'MD.runBounds_last' depends on axioms: [propext]
+'MD.runBounds_strict' depends on axioms: [propext, Classical.choice, Quot.sound]
+'MD.runBounds_change' depends on axioms: [propext, Classical.choice, Quot.sound]
+'MD.BlockVec.mirror' depends on axioms: [propext, Quot.sound]
+'MD.BlockVec.unique' depends on axioms: [propext, Classical.choice, Quot.sound]
+'MD.mirror_mirror' depends on axioms: [propext, Quot.sound]
+'MD.gpava_sorted_fixed' depends on axioms: [propext, Classical.choice, Quot.sound]
+'MD.gpava_idempotent' depends on axioms: [propext, Classical.choice, Quot.sound]
+'MD.gpava_idempotent_bounds' depends on axioms: [propext, Classical.choice, Quot.sound]
+'MD.gpava_map' depends on axioms: [propext, Quot.sound]
+'MD.wmean_affine' depends on axioms: [propext, Classical.choice, Quot.sound]
+'MD.expectile_affine' depends on axioms: [propext, Classical.choice, Quot.sound]
+'MD.qLower_affine' depends on axioms: [propext, Classical.choice, Quot.sound]
+'MD.qUpper_affine' depends on axioms: [propext, Classical.choice, Quot.sound]
+'MD.wmean_scale' depends on axioms: [propext, Classical.choice, Quot.sound]
+'MD.expectile_scale' depends on axioms: [propext, Classical.choice, Quot.sound]
+'MD.fit_affine_mean' depends on axioms: [propext, Classical.choice, Quot.sound]
+'MD.fit_affine_expectile' depends on axioms: [propext, Classical.choice, Quot.sound]
+'MD.fit_affine_quantile' depends on axioms: [propext, Classical.choice, Quot.sound]
+'MD.fit_weight_scale_mean' depends on axioms: [propext, Classical.choice, Quot.sound]
+'MD.fit_weight_scale_expectile' depends on axioms: [propext, Classical.choice, Quot.sound]
+'MD.quantileFit_sorted_fixed' depends on axioms: [propext, Classical.choice, Quot.sound]
+'MD.quantileFit_idempotent' depends on axioms: [propext, Classical.choice, Quot.sound]
+'MD.eq_isoReg' depends on axioms: [propext, Quot.sound]
+'MD.eqValidate_ok' depends on axioms: [propext, Classical.choice, Quot.sound]
+'MD.isoReg_length' depends on axioms: [propext, Classical.choice, Quot.sound]
+'MD.isoReg_range' depends on axioms: [propext, Classical.choice, Quot.sound]
+'MD.isoReg_blockVec' depends on axioms: [propext, Classical.choice, Quot.sound]
+'MD.isoReg_monotone_fixed' depends on axioms: [propext, Classical.choice, Quot.sound]
+'MD.isoReg_idempotent' depends on axioms: [propext, Classical.choice, Quot.sound]
+'MD.isoReg_reverse' depends on axioms: [propext, Classical.choice, Quot.sound]
+'MD.isoReg_affine' depends on axioms: [propext, Classical.choice, Quot.sound]
+'MD.isoReg_weight_scale' depends on axioms: [propext, Classical.choice, Quot.sound]
+-/
